@@ -84,7 +84,7 @@ theorem slotLeaf : Leaf (SlotView P) where
   setLoopStop := fun b => by unfold setLoopStop; slot_same
   clearDone := by unfold clearDone; slot_same
   unregister := fun u => by unfold unregisterWatcher; slot_same
-  registerNew := fun w => by
+  registerNew := fun w _ => by
     apply slotView_same; intro s; unfold registerNew registerChecked; simp only
     split
     · simp
